@@ -14,7 +14,7 @@
    Every theorem quantifies over all configurations, all answers of the beacon node (any slots,
    any validators, duplicates), all clock positions and all histories. *)
 From Verif Require Import Lib.Base Model.C03_ChainTime Model.C03_Controller Model.C03_Spec
-     Proofs.C03_ChainTime Proofs.C03_Table Proofs.C03_Sched Proofs.C03_Hist Proofs.C03_More Proofs.C03_Merge Proofs.C03_Witness Check.C03 Proofs.C03_Check.
+     Proofs.C03_ChainTime Proofs.C03_Table Proofs.C03_Sched Proofs.C03_Hist Proofs.C03_More Proofs.C03_SyncStart Proofs.C03_Merge Proofs.C03_Witness Check.C03 Proofs.C03_Check.
 From Coq Require Import Permutation Sorted.
 Open Scope Z_scope.
 
@@ -291,6 +291,92 @@ Theorem C03_restart_schedules_later_duties : forall shadowed c,
               j_time j = (start_of_slot (c_ct c) (ad_slot d) + c_att_delay c)%Z.
 Proof. exact start_schedules_later_duties. Qed.
 Print Assumptions C03_restart_schedules_later_duties.
+
+(* =========================================================================================== *)
+(* Start-up / restart completeness for sync committee duties.  [in_sync_window ae cur ep s]: slot
+   [s] lies in the window scheduleSyncCommitteeMessages computes at clock [cur] for the period of
+   epoch [ep] (Altair fork epoch [ae]); [sync_active]: validators are known, the chain is at or past
+   the fork and the node names a validator for that period.  Wherever in a period the process is
+   (re)started: the rest of the current period has its jobs at once; so has the whole next period
+   when its first epoch is at most 5 epochs away; otherwise the epoch 5 before the boundary is
+   still to come and its epoch tick sets the next period up; the two conditions leave no gap
+   ([C03_next_sync_period_by_start_or_by_tick]: weakening either of them, e.g. "<" for "<=" at
+   start-up or the ticker's test at start-up, falsifies it); the jobs then stay in the table. *)
+Theorem C03_restart_schedules_sync_period : forall shadowed c st ae s,
+  altair_details shadowed c = (true, ae) ->
+  let cur := st_cur st in
+  let this := feosp c ae (cur_epoch c cur / c_period c)%N in
+  sync_active c ae cur (st_env st) this = true ->
+  in_sync_window c ae cur this s -> s <> cur ->
+  texists (st_jobs (start shadowed c st)) (JSync s) = true.
+Proof. exact start_schedules_sync_period. Qed.
+Print Assumptions C03_restart_schedules_sync_period.
+
+Theorem C03_restart_schedules_next_sync_period : forall shadowed c st ae s,
+  altair_details shadowed c = (true, ae) ->
+  let cur := st_cur st in
+  let next := feosp c ae (cur_epoch c cur / c_period c + 1)%N in
+  (sub64 next (cur_epoch c cur) <= 5)%N ->
+  sync_active c ae cur (st_env st) next = true ->
+  in_sync_window c ae cur next s -> s <> cur ->
+  texists (st_jobs (start shadowed c st)) (JSync s) = true.
+Proof. exact start_schedules_next_sync_period. Qed.
+Print Assumptions C03_restart_schedules_next_sync_period.
+
+Theorem C03_epoch_tick_schedules_next_sync_period : forall c st s,
+  let cur := st_cur st in
+  let ce := cur_epoch c cur in
+  st_altair st = true -> (st_tick st < Z.of_N ce)%Z ->
+  (ce mod c_period c)%N = sub64 (c_period c) 5 ->
+  sync_active c (st_altair_epoch st) cur (st_env st) (add64 ce 5) = true ->
+  in_sync_window c (st_altair_epoch st) cur (add64 ce 5) s ->
+  texists (st_jobs (epoch_tick c st)) (JSync s) = true.
+Proof. exact tick_schedules_next_sync_period. Qed.
+Print Assumptions C03_epoch_tick_schedules_next_sync_period.
+
+Theorem C03_fork_epoch_tick_schedules_sync_periods : forall c st s,
+  let cur := st_cur st in
+  let ce := cur_epoch c cur in
+  let ae := st_altair_epoch st in
+  let next := mul64 (add64 (ae / c_period c)%N 1) (c_period c) in
+  st_altair st = true -> (st_tick st < Z.of_N ce)%Z -> ce = ae ->
+  (sync_active c ae cur (st_env st) ae = true /\ in_sync_window c ae cur ae s) \/
+  ((sub64 next ae <= 5)%N /\ sync_active c ae cur (st_env st) next = true /\ in_sync_window c ae cur next s) ->
+  texists (st_jobs (epoch_tick c st)) (JSync s) = true.
+Proof. exact fork_tick_schedules_sync_periods. Qed.
+Print Assumptions C03_fork_epoch_tick_schedules_sync_periods.
+
+Theorem C03_next_sync_period_by_start_or_by_tick : forall c ae ce,
+  let len := c_period c in
+  let P := (ce / len)%N in
+  (5 <= len)%N -> (ae <= ce)%N -> ((P + 2) * len < two64)%N ->
+  (sub64 (feosp c ae (P + 1)) ce <= 5)%N \/
+  exists e', (ce < e')%N /\ (e' < (P + 1) * len)%N /\ (e' / len)%N = P /\
+             (e' mod len)%N = sub64 len 5 /\ add64 e' 5 = ((P + 1) * len)%N /\ (ae <= e')%N.
+Proof. exact next_period_by_start_or_by_tick. Qed.
+Print Assumptions C03_next_sync_period_by_start_or_by_tick.
+
+Theorem C03_job_persists_over_run : forall shadowed c ops st n j,
+  tget (st_jobs st) n = Some j -> never_drops shadowed c st ops n ->
+  tget (st_jobs (run shadowed c st ops)) n = Some j.
+Proof. exact job_persists_over_run. Qed.
+Print Assumptions C03_job_persists_over_run.
+
+(* non-vacuity (period of 8 epochs of 2 slots, fork at 0; the next period begins at epoch 16, its
+   window at slot 31): a start-up in epoch 11 (5 before the boundary) and one in epoch 14 set the
+   next period up at once; a start-up in epoch 10 does not, the tick of epoch 11 does, and the job
+   is still there when the clock reaches the eve of the period *)
+Example C03_sync_boundary_nonvacuous :
+  let c := {| c_ct := {| ct_genesis := 0; ct_dur := 12000000000; ct_spe := 2 |}; c_att_delay := 4000000000;
+              c_prop_delay := 0; c_ft_att := false; c_period := 8%N; c_spec_altair := Some 0%N; c_have_agg := true |} in
+  let e := {| e_att := []; e_prop := []; e_sync := [(1%N, [7%N]); (2%N, [9%N])]; e_vals := true |} in
+  let at_slot s := set_env (set_cur (init_state false 0) s) e in
+  texists (st_jobs (start false c (at_slot 23%N))) (JSync 31%N) = true /\
+  texists (st_jobs (start false c (at_slot 28%N))) (JSync 31%N) = true /\
+  texists (st_jobs (start false c (at_slot 21%N))) (JSync 31%N) = false /\
+  texists (st_jobs (run false c (at_slot 21%N) [Start; Advance 22%N; Tick])) (JSync 31%N) = true /\
+  texists (st_jobs (run false c (at_slot 21%N) [Start; Advance 22%N; Tick; Advance 24%N; Tick; Advance 30%N])) (JSync 31%N) = true.
+Proof. vm_compute. repeat split. Qed.
 
 (* =========================================================================================== *)
 (* The once-per-epoch guard.  After the ticker has run, any further tick of the same process while
